@@ -28,6 +28,7 @@ def run(ctx, crate):
     D.rule_rows_newtype(ctx, crate)
     D.rule_width_source(ctx, crate)
     D.rule_line_kinds(ctx, crate)
+    D.rule_shift_full_frame(ctx, crate)
     # a finished bar updated under an exhausted limiter stores rows that were never painted; dropping it then makes the
     # next println erase that many log lines (seed C03c)
     D.rule_finished_draws_forced(ctx, crate)
